@@ -181,6 +181,19 @@ Proof.
 Qed.
 
 (* the commitment over the term algebra determines the list of leaves *)
+(* stated for an arbitrary height so that no term ever contains [build] at the literal height 64
+   ([build] recurses on the height first and explores both halves: conversion on it would not finish) *)
+Lemma spec_fast_assoc : forall hf,
+  (forall a b c d, hf a b = hf c d -> a = c /\ b = d) ->
+  (forall a b c n, hf a b <> TAddLen c n) -> (forall a b z, hf a b <> TC z) ->
+  forall h m1 m2, wf_map term tzero h m1 -> wf_map term tzero h m2 ->
+  spec_root_fast term hf TPath TAddLen (TC 0) h m1 = spec_root_fast term hf TPath TAddLen (TC 0) h m2 ->
+  forall k, length k = h -> assoc term m1 k = assoc term m2 k.
+Proof.
+  intros hf I N C h m1 m2 W1 W2 E. rewrite !spec_root_fast_eq in E.
+  exact (spec_root_assoc hf I N C h _ _ W1 W2 E).
+Qed.
+
 Lemma commit_root_assoc : forall hf,
   (forall a b c d, hf a b = hf c d -> a = c /\ b = d) ->
   (forall a b c n, hf a b <> TAddLen c n) -> (forall a b z, hf a b <> TC z) ->
@@ -188,8 +201,10 @@ Lemma commit_root_assoc : forall hf,
   commit_root hf l1 = commit_root hf l2 ->
   forall k, length k = CH -> assoc term (indexed l1) k = assoc term (indexed l2) k.
 Proof.
-  intros hf I N C l1 l2 S1 S2 Z1 Z2 E. unfold commit_root in E. rewrite !spec_root_fast_eq in E.
-  exact (spec_root_assoc hf I N C CH _ _ (wf_indexed l1 S1 Z1) (wf_indexed l2 S2 Z2) E).
+  intros hf I N C l1 l2 S1 S2 Z1 Z2 E.
+  assert (W1 := wf_indexed l1 S1 Z1). assert (W2 := wf_indexed l2 S2 Z2).
+  unfold commit_root in E. revert W1 W2 E. generalize (indexed l1) (indexed l2). generalize CH.
+  intros h m1 m2 W1 W2 E. exact (spec_fast_assoc hf I N C h m1 m2 W1 W2 E).
 Time Qed.
 
 Lemma nth_from_assoc : forall l1 l2, small (length l1) -> small (length l2) ->
